@@ -9,7 +9,7 @@ NAME="$1"; shift
 BASE=/tmp/ns-$NAME
 rm -rf "$BASE"; mkdir -p "$BASE/repo" "$BASE/verif"
 rsync -a --exclude target /repo/ "$BASE/repo/"
-rsync -a --exclude work --exclude replays /verif/ "$BASE/verif/"
+rsync -a --exclude work --exclude replays /verif/ "$BASE/verif/"; mkdir -p "$BASE/verif/work" "$BASE/verif/replays"
 unshare -m bash -c "mount --bind $BASE/repo /repo && mount --bind $BASE/verif /verif && cd /verif && $*" > /tmp/ns-$NAME.log 2>&1
 echo "exit=$?" >> /tmp/ns-$NAME.log
 rm -rf "$BASE"
